@@ -74,7 +74,24 @@ def grid(c, rng, tier, _results=None):
             if kind == "cont" and end != "E end":
                 bad.append((f"ContinueAfter({nb}) did not abandon the execution silently: {end}",
                             {"kind": "program", "program": prog, "stream": "c13_grid"}, "C13:not-silent"))
-    return {"unbounded": unb, "bound_grid": g}, bad
+    # ---- time limit: checked between iterations only; with a body that takes `ms` of wall-clock time the run may
+    # start at most floor(limit/ms)+1 iterations (a slow machine only lowers the count) and must start at least one
+    tl = []
+    cases = [(100, 40), (250, 60), (30, 50), (180, 45)]
+    for i, (limit, ms) in enumerate(cases):
+        tl += [f"=== c13_time_{i}", f"config steps=none clocks=0 time={limit}", "obj a0 atomic 0", "task 0 thread",
+               "  spawn 1", f"  spin {ms}", "  aadd a0 1", "  join 1", "end", "task 1 thread", "  aadd a0 1", "end", "run random:5:1000"]
+    t = run_stream("c13_time", tl, "trace", jobs=4)
+    for i, (limit, ms) in enumerate(cases):
+        nm = f"c13_time_{i}"
+        ex = executions(t["impl"].get(nm, []))
+        cap = limit // ms + 1
+        if not ex:
+            bad.append(("a run with a time limit did not perform a single iteration", {"kind": "program", "program": t["progs"][nm]}, "C13:time-limit"))
+        elif len(ex) > cap:
+            bad.append((f"time limit {limit} ms with a body of {ms} ms: {len(ex)} iterations were started, at most {cap} can start before the limit has passed",
+                        {"kind": "program", "program": t["progs"][nm]}, "C13:time-limit"))
+    return {"unbounded": unb, "bound_grid": g, "time_limit": t}, bad
 
 
 def run(tier, seed):
